@@ -82,7 +82,9 @@ func (c *underefChecker) underef(x *ast.ParenExpr) ast.Expr {
 	// If there is only 1 deref, can remove parenthesis,
 	// otherwise can remove StarExpr only.
 	dereferenced := x.X.(*ast.StarExpr).X
-	if astp.IsStarExpr(dereferenced) {
+	if _, ok := dereferenced.(*ast.UnaryExpr); ok || astp.IsStarExpr(dereferenced) {
+		// Selector and index bind tighter than unary operators:
+		// (*<-ch).f is not <-ch.f and (*&x).f is not &x.f.
 		return &ast.ParenExpr{X: dereferenced}
 	}
 	return dereferenced
